@@ -253,11 +253,18 @@ def hooked_class():
     return HDag
 
 
+_SCRATCH = []      # ONE list object of the caller, re-used for every assignment (a loader with a scratch list)
+
+
 def _add_edge(nodes, p, c, m):
     if m == "P":
-        nodes[c].parents = [nodes[p]]
+        _SCRATCH.clear(); _SCRATCH.append(nodes[p])
+        nodes[c].parents = _SCRATCH
+        _SCRATCH.clear()
     elif m == "C":
-        nodes[p].children = [nodes[c]]
+        _SCRATCH.clear(); _SCRATCH.append(nodes[c])
+        nodes[p].children = _SCRATCH
+        _SCRATCH.clear()
     elif m == "R":
         nodes[p] >> nodes[c]
     else:
